@@ -341,7 +341,15 @@ func c19(c *Ctx) {
 		r.Check("C19.cache", shortFn(frame), "mutex-and-once", frame.Pos(), ok && n >= 2, why)
 		// writers of preparedFrame.data
 		for _, st := range c.P.FieldStoreSites(pfData) {
-			r.Check("C19.cache", shortFn(st.Parent()), "writer-of-preparedFrame.data", st.Pos(), st.Parent() == frame1, "preparedFrame.data may be assigned only inside the once.Do closure")
+			// a helper the closure calls (and nothing else does) writes on its behalf
+			inOnce := true
+			hosts := c.hostsOf(st.Parent())
+			for _, h := range hosts {
+				if h != frame1 {
+					inOnce = false
+				}
+			}
+			r.Check("C19.cache", shortFn(st.Parent()), "writer-of-preparedFrame.data", st.Pos(), inOnce && len(hosts) > 0, "preparedFrame.data may be assigned only inside the once.Do closure")
 		}
 	}
 
